@@ -191,6 +191,13 @@ func (n *LocalNode) RequestToLeave(leaver chord.VNode) error {
 		n.logger.Warn("Rejecting leave request because current state is not Active", zap.String("state", curr.String()))
 		return chord.ErrLeaveInvalidState
 	}
+	// only our immediate predecessor may hand over its keys to us. if another node has
+	// joined in between, the leaver is working with an outdated successor and has to retry
+	if pre := n.getPredecessor(); pre == nil || pre.ID() != leaver.ID() {
+		n.logger.Warn("Rejecting leave request because leaver is not our predecessor", zap.Object("leaver", leaver.Identity()))
+		n.state.Transition(chord.Transferring, chord.Active)
+		return chord.ErrLeaveInvalidState
+	}
 	return nil
 }
 
